@@ -120,4 +120,9 @@ def valNested : Nat → Val
   | 0 => .box .nil
   | d + 1 => .box (.cons (valNested d) .nil)
 
+/-- d mappings inside each other as the value of the key 1 (d ≥ 1): `([ 1 : ([ 1 : ... ]) ])`; the key is saved as "1:" -/
+def valNestedMap : Nat → Val
+  | 0 => .box .nil
+  | d + 1 => .box (.cons (.leaf 2) (.cons (valNestedMap d) .nil))
+
 end NV.C04
